@@ -2005,3 +2005,41 @@ Example bound_inference_example :
   exists x, expand Struct Unnamed (map (abstract_field [100]) cs) = Ok x
             /\ returned_field x = Some 1 /\ x_bound x = Some 1.
 Proof. eexists. vm_compute. repeat split. Qed.
+
+(* ------------------------------------------------------------------ the enabled->all index map, characterised exactly *)
+
+(** `State::enabled_fields_indexes` lists exactly the all-space positions of the non-ignored fields ... *)
+Lemma enabled_indexes_iff : forall fs j,
+  In j (enabled_fields_indexes fs) <-> exists f, nth_error fs j = Some f /\ f_ignore f = false.
+Proof.
+  unfold enabled_fields_indexes. induction fs as [|f r IH]; intros j.
+  - cbn [enabled_fields_indexes_from In]. split; [intros [] | intros [f [H _]]; destruct j; discriminate].
+  - cbn [enabled_fields_indexes_from]. rewrite enabled_indexes_S.
+    destruct j as [|j]; cbn [nth_error].
+    + destruct (f_ignore f) eqn:Ig.
+      * split.
+        -- intros H. apply in_map_iff in H as [x [E _]]. discriminate.
+        -- intros [f' [E Hf]]. inversion E; subst. congruence.
+      * split.
+        -- intros _. exists f. auto.
+        -- intros _. left. reflexivity.
+    + rewrite <- IH. destruct (f_ignore f).
+      * split.
+        -- intros H. apply in_map_iff in H as [x [E Hx]]. inversion E; subst. exact Hx.
+        -- intros H. apply in_map. exact H.
+      * cbn [In]. split.
+        -- intros [E|H]; [discriminate|]. apply in_map_iff in H as [x [E Hx]]. inversion E; subst. exact Hx.
+        -- intros H. right. apply in_map. exact H.
+Qed.
+
+(** ... each once *)
+Lemma enabled_indexes_nodup : forall fs, NoDup (enabled_fields_indexes fs).
+Proof.
+  unfold enabled_fields_indexes. induction fs as [|f r IH]; cbn [enabled_fields_indexes_from]; [constructor|].
+  rewrite enabled_indexes_S.
+  assert (HN : NoDup (map S (enabled_fields_indexes_from 0 r))).
+  { clear -IH. induction IH as [|x l Hx ND IHn]; cbn [map]; constructor; [|exact IHn].
+    intros H. apply in_map_iff in H as [y [E Hy]]. inversion E; subst. exact (Hx Hy). }
+  destruct (f_ignore f); [exact HN|]. constructor; [|exact HN].
+  intros H. apply in_map_iff in H as [x [E _]]. discriminate.
+Qed.
